@@ -35,7 +35,19 @@ integer boundaries or huge counts; 7 caught by the first run): (x) BOTH operands
 (xi) limits that do not fit 32 bits, (xii) an operand above 2^20 nodes (the ternary model engine needs about a minute and
 6 GB for it), (xiii) name lists of 65,536 and more names; and one FALSE ALARM was removed on the way: `TryFrom
 <BddPartialValuation>` succeeding where the model (like the pinned code) keeps trailing padding is now accepted when the
-conversion is an inverse (harmless/13 trims the padding and raises no alarm in any of the 20 checks).
+conversion is an inverse (harmless/13 trims the padding and raises no alarm in any of the 20 checks); from the fourth,
+ADVERSARIAL wave (`*-w4-*`, 30 changes written to slip past a strong differential tester: coincidences and state; only 19
+caught by the first run — 9 of the 10 for C01–C07 were missed): (xiv) the SAME object in two operand positions (the harness
+decoded every operand separately, so reference-identity shortcuts such as `ite(f, g, f)` or equal flips on one reference
+never fired: identical operands are now handed out as one `Rc` in three cases out of four and the generators repeat
+operands), (xv) operations with nothing to do on NON-canonical operands (quantification over an empty or support-disjoint
+list, `a.and(a)`) which must still canonicalise, (xvi) quantified and picked variable sets beyond 32 / 64 entries and
+indices, (xvii) non-canonical CONSTANTS (a valid diagram of a constant with redundant nodes), (xviii) operands at the very
+top of the variable range (65,533 / 65,534 / 65,535 variables) for `substitute`, (xix) non-REDUCED diagrams for the
+selectors (the benign shape on which the pinned code meets C11), (xx) `write_as_dot_string` into a writer that accepts
+partial writes. A hang watchdog was added to the harness on the way (`HANG` outcome: a call that does not return within
+VERIF_HANG_SECS costs one case, not the shard) after `random_clause` looped for ever on a non-reduced diagram with a
+non-terminal false node (outside C11's quantifier, see §0).
 
 | seeded change | property | needs | caught | by |
 |---|---|---|---|---|
